@@ -388,6 +388,14 @@ def gen_calls(seed, part, parts, reps, with_ill, passes=2):
     if part == 0:
         for ev in copy_events(seed):
             yield ev
+        for (qn, what, thunk) in A.must_reject():
+            gpre = G.digest()
+            try:
+                res = thunk()
+                oc, fin = "ok", 1 if finite(res) else 0
+            except Exception as ex:
+                oc, fin = _oc(ex), 1
+            yield {"k": "must", "f": qn, "site": qn, "what": what, "oc": oc, "fin": fin, "gpre": gpre, "gpost": G.digest()}
 
 
 # ---------------------------------------------------------------------------
